@@ -126,6 +126,14 @@ class Run:
             if f[0] == 'discard':
                 pi = int(f[1])
                 self.discarded[pi][int(f[2])] = self.discarded[pi].get(int(f[2]), 0) + 1
+        # buffer bound: events accepted by a pool and neither answered OK, discarded nor held by a listener are buffered
+        by_serial = {getattr(ev, 'serial', None): i for i, ev in enumerate(w.evobjs)}
+        for qi, (name, bs, nl, types) in enumerate(self.pools):
+            gone = set(self.ok[qi]) | {by_serial.get(sn) for sn in self.discarded[qi]}
+            held = {w.evids.get(id(p.event)) for p in w.listeners[qi] if p.event is not None}
+            buffered = [e for e in self.accepted[qi] if e not in gone and e not in held]
+            if len(buffered) > bs:
+                self.viol.append(('buffer-bound-exceeded', 'pool %s (buffer_size %d) holds %d undelivered events %r after %r' % (name, bs, len(buffered), buffered, op)))
         # listener isolation: bytes from one listener change nothing in any other listener
         if t[0] == 'read':
             pi0, li0 = int(t[1]), int(t[2])
